@@ -314,7 +314,9 @@ def to_str(I, v):
             return v
         if v.kind == 'int':
             I.ctx.use_axiom('A-STR:str(int) = z3 int.to.str for non-negative ints')
-            return SV(z3.If(v.z >= 0, z3.IntToStr(v.z), z3.Concat(z3.StringVal('-'), z3.IntToStr(-v.z))), 'str')
+            r = SV(z3.If(v.z >= 0, z3.IntToStr(v.z), z3.Concat(z3.StringVal('-'), z3.IntToStr(-v.z))), 'str')
+            r.from_int = v.z
+            return r
         if v.kind == 'real':
             f = I.ctx.fresh_str('fmt_real')
             I.ctx.use_axiom('A-STR:str(float) opaque')
@@ -331,6 +333,23 @@ def to_str(I, v):
         return opaque_str(I, 'exc_args')
     # containers and other objects: an opaque string (content never inspected by verified code)
     return opaque_str(I, 'str_of_' + type(v).__name__)
+
+
+_FMT = {}
+
+
+def fmt_fn(I, tmpl, iz):
+    """template.format(i) for a symbolic int i as F_template(i); F is injective (distinct ints print differently)"""
+    if tmpl not in _FMT:
+        _FMT[tmpl] = z3.Function('fmt_%d' % len(_FMT), z3.IntSort(), z3.StringSort())
+    f = _FMT[tmpl]
+    key = '_fmt_ax_' + tmpl
+    if not getattr(I.ctx, key, False):
+        setattr(I.ctx, key, True)
+        a, b = z3.Ints('fmt_a fmt_b')
+        I.ctx.add_axiom(z3.ForAll([a, b], z3.Implies(f(a) == f(b), a == b), patterns=[z3.MultiPattern(f(a), f(b))]),
+                        'A-STR:literal.format(int) is injective in the int')
+    return SV(f(iz), 'str')
 
 
 def opaque_str(I, tag):
@@ -381,7 +400,10 @@ def str_format(I, fmt, args, kwargs):
                 padded = z3.If(ln >= w, sz, z3.Concat(z3.SubString(pad, 0, w - ln), sz))
                 if I.ctx.branch(I.z(v, 'int') < 0):
                     raise Unsupported('padded format of a negative symbolic int')
-                parts.append(SV(padded, 'str'))
+                pv = SV(padded, 'str')
+                pv.from_int = I.z(v, 'int')
+                pv.fmt_spec = spec
+                parts.append(pv)
                 continue
             if I.kind(v) not in ('int', 'real'):
                 raise_py('ValueError', 'Unknown format code for object of type %s' % I.kind(v))
@@ -390,6 +412,12 @@ def str_format(I, fmt, args, kwargs):
         parts.append(to_str(I, v))
     if all(isinstance(p, str) for p in parts):
         return ''.join(parts)
+    # one symbolic integer inside a literal template (e.g. '$P{}B'.format(p)): an uninterpreted injective function of
+    # the integer (A-STR) instead of string arithmetic, which the solvers handle badly
+    sym = [(i_, p_) for i_, p_ in enumerate(parts) if not isinstance(p_, str)]
+    if len(sym) == 1 and getattr(sym[0][1], 'from_int', None) is not None:
+        tmpl = ''.join(p_ if isinstance(p_, str) else '\x00' + getattr(p_, 'fmt_spec', '') for p_ in parts)
+        return fmt_fn(I, tmpl, sym[0][1].from_int)
     e = None
     for p in parts:
         pz = I.z(p)
@@ -493,6 +521,7 @@ def call_type(I, t, args, kwargs):
             r = stamp(SymSeq(n, v.n, v.fn, list(v.overlays)))
             r.map_of = getattr(v, 'map_of', None)
             r.elem_token = v.elem_token
+            r.no_raise = getattr(v, 'no_raise', False)
             return r
         if isinstance(v, RangeV) and not I.is_concrete_iter(v):
             r = I.range_to_symseq(v)
@@ -694,6 +723,13 @@ def value_attr(I, obj, name):
                     for k_, v_ in zip(src.keys, src.vals):
                         I.setitem(obj, k_, v_)
                     return None
+                if isinstance(src, SymDict) and not src.overlay.keys and not obj.overlay.keys:
+                    kx = z3.String('upd_k')
+                    p1, v1, p2, v2 = obj.present, obj.val, src.present, src.val
+                    obj.present = z3.Lambda([kx], z3.Or(z3.Select(p1, kx), z3.Select(p2, kx)))
+                    obj.val = z3.Lambda([kx], z3.If(z3.Select(p2, kx), z3.Select(v2, kx), z3.Select(v1, kx)))
+                    I.ctx.use_axiom('A-LIB:dict.update = right-biased union')
+                    return None
                 raise Unsupported('update of a symbolic dict from a symbolic dict')
             return Builtin('update', _update)
         return NOATTR
@@ -806,7 +842,10 @@ def _s_split(I, s, a, kw):
 
 
 def _s_join(I, s, a, kw):
-    items = I.iterate_concrete(a[0])
+    seq = I.force(a[0])
+    if isinstance(seq, SymSeq) and not isinstance(seq.n, int):
+        return opaque_str(I, 'join_of_symbolic_list')       # content never inspected by verified code (messages)
+    items = I.iterate_concrete(seq)
     for x in items:
         if I.kind(x) != 'str':
             from .interp import raise_py
@@ -1060,6 +1099,9 @@ def opaque_setitem(I, obj, key, val):
 
 
 def opaque_setattr(I, obj, name, val):
+    if obj.tag == 'flags' and name == 'writeable':
+        obj.payload.writeable = bool(I.truth(val))
+        return None
     h = I.config.get('opaque_setattr')
     if h is not None:
         return h(I, obj, name, val)
